@@ -582,7 +582,15 @@ fn gen_case(rng: &mut Rng) -> Case {
             let l = "unix:@DIR@/sock".to_string();
             ("path", l.clone(), format!("{}/{}", l, "NoDotMethod"))
         }
-        18 => ("nolisten", "unix:@DIR@/nobody".to_string(), "nodotnoslash".to_string()),
+        18 => match rng.below(4) {
+            0 => ("nolisten", "unix:@DIR@/nobody".to_string(), "nodotnoslash".to_string()),
+            // an address without scheme: split as usual, then refused by the connection code
+            1 => ("nolisten", "unix:@DIR@/nobody".to_string(), format!("@DIR@/nobody/{}", method)),
+            // trailing slash: the method part is empty
+            2 => ("path", "unix:@DIR@/sock".to_string(), "unix:@DIR@/sock/".to_string()),
+            // a slash after the method: the last piece has no dot
+            _ => ("path", "unix:@DIR@/sock".to_string(), format!("unix:@DIR@/sock/{}/x", method)),
+        },
         _ => {
             // nobody listens there
             ("nolisten", "unix:@DIR@/nobody".to_string(), format!("unix:@DIR@/nobody/{}", method))
@@ -634,7 +642,7 @@ impl Suite for CliSuite {
                 }
             }
         }
-        let n = if ctx.thorough { 6000 } else { 700 };
+        let n = if ctx.thorough { 6000 } else { 1500 };
         for _ in 0..n {
             cases.push(gen_case(&mut rng));
         }
